@@ -3,6 +3,7 @@ package props
 import (
 	"encoding/json"
 	"fmt"
+	"go/constant"
 	"go/token"
 	"go/types"
 	"sort"
@@ -75,6 +76,7 @@ func c18(r *core.Run) {
 	r.Rule("V1", "reference/data/delete vocabulary: prefix and suffix constants parse (with a placeholder id) to an object with exactly the members the unmarshalers and the store's valueObject declare; the delete-action literal is the same in service and store and uses the action constant; 'data' is the data-value member everywhere", 6)
 	r.Rule("V2", "envelopes: {result,resource,error}, {model,collection,query} and {get,call} have the same JSON member names in the service's response structs and the client package's parse structs", 3)
 	r.Rule("V6", "members the client does not declare are tolerated: the service's response envelopes may carry members (meta: status, header) that the client's Response struct does not declare; then the client package must not decode strictly (no json.Decoder.DisallowUnknownFields), otherwise such a response is classified as an internal error", 1)
+	r.Rule("V7", "equality looks at what the parser set: for every value class, the members of a store Value that Equal reads in that class's arm are members the value parser assigns on every path that ends in that class (the parser does not reset the others, so in a Value that is decoded into again they hold what an earlier text left behind); otherwise Equal answers from stale bytes - equal values differ, different values compare equal", 4)
 	r.Rule("V3", "decoders own their bytes: no UnmarshalJSON method of the library keeps (a slice or byte-slice conversion of) its input parameter in the receiver - the json.Unmarshaler contract lets the caller reuse the buffer, after which a retained alias changes the value's JSON and its equality", 3)
 	r.Rule("V4", "value classes are mutually exclusive: in the store's value parser every assignment of an object class (reference, delete action, data / primitive-in-data) happens on a path where exactly one of the members rid, action, data is known to be present and the other two are known to be absent - an object mixing them is invalid, not silently classified by whichever member is tested first", 3)
 	r.Rule("V5", "a published response reaches the client's parser (shared with C19.U1): the inbox SendRequest subscribes has room for a message and nothing but the deferred release ends or limits the interest (no AutoUnsubscribe / Drain / early Unsubscribe): a service may publish a pre-response before the response, and a subscription limited to one message delivers the pre-response only - the response is then reported as system.timeout instead of what the handler supplied", 2)
@@ -279,6 +281,9 @@ func c18(r *core.Run) {
 			fmt.Sprintf("the service's envelopes carry %v beyond what the client declares; the client package uses no strict decoder, so they are ignored", extra),
 			fmt.Sprintf("the service's response envelopes carry the member(s) %v that the client's Response struct does not declare, and the client package decodes strictly (%s): a response with a status or header (meta) is rejected and classified as an internal error instead of the result, resource or error the handler sent", extra, strings.Join(strict, "; ")))
 	}
+
+	// ---- V7: Equal reads only what the parser wrote for that class ------------------
+	c18EqualReadsWhatParserWrote(r, "V7")
 
 	// ---- V3 --------------------------------------------------------------
 	for _, rel := range core.LibPkgs {
@@ -516,4 +521,162 @@ func c18(r *core.Run) {
 			_ = segs
 		}
 	}
+}
+
+// c18EqualReadsWhatParserWrote: see rule V7.
+func c18EqualReadsWhatParserWrote(r *core.Run, rule string) {
+	p := r.P
+	um := methodNamed(p, "store", "Value", "UnmarshalJSON")
+	eq := methodNamed(p, "store", "Value", "Equal")
+	if um == nil || eq == nil {
+		r.Unres(rule, "store.Value.UnmarshalJSON/Equal", "missing")
+		return
+	}
+	typeF, ok := fieldByType(p, "store", "Value", func(t types.Type) bool {
+		return core.TypeName(t) == qual("store", "ValueType") || core.TypeName(t) == "ValueType"
+	})
+	if !ok {
+		r.Unres(rule, "store.Value.<type>", "no single member of type ValueType")
+		return
+	}
+	isValueField := func(f core.Field) bool { return f.Struct == typeF.Struct }
+	// class constants
+	names := map[int64]string{}
+	if pk := p.Pkgs["store"]; pk != nil {
+		sc := pk.Types.Scope()
+		for _, n := range sc.Names() {
+			if c, ok := sc.Lookup(n).(*types.Const); ok && core.TypeName(c.Type()) == core.TypeName(typeFType(p, typeF)) {
+				if k, ok := constant.Int64Val(c.Val()); ok {
+					names[k] = n
+				}
+			}
+		}
+	}
+	if len(names) < 3 {
+		r.Unres(rule, "store.ValueType constants", fmt.Sprintf("%d constants found", len(names)))
+		return
+	}
+	// W(T): members written before every store of class T
+	acc := core.FieldAccesses([]*ssa.Function{um}, isValueField)
+	written := map[int64]map[string]bool{}
+	for _, ac := range acc {
+		st, ok := ac.Instr.(*ssa.Store)
+		if !ok || ac.F != typeF || ac.Kind != "store" {
+			continue
+		}
+		k, ok := core.ConstInt(st.Val)
+		if !ok {
+			continue
+		}
+		ws := map[string]bool{}
+		for _, w := range acc {
+			if w.Write && w.F != typeF && core.Dominates(w.Instr, st) {
+				ws[w.F.Name] = true
+			}
+		}
+		if prev, seen := written[k]; seen {
+			for n := range prev {
+				if !ws[n] {
+					delete(prev, n)
+				}
+			}
+		} else {
+			written[k] = ws
+		}
+	}
+	// R(T): members read in Equal while the class is T
+	var consts []int64
+	for k := range names {
+		consts = append(consts, k)
+	}
+	sort.Slice(consts, func(i, j int) bool { return consts[i] < consts[j] })
+	idx := map[int64]int{}
+	entry := core.StateSet(0)
+	for i, k := range consts {
+		idx[k] = i
+		entry = entry.Add(i)
+	}
+	isTypeLoad := func(v ssa.Value) bool {
+		f, ok := core.LoadedField(v)
+		if ok && f == typeF {
+			return true
+		}
+		if fl, ok := v.(*ssa.Field); ok {
+			if f, ok := core.FieldOf(fl); ok && f == typeF {
+				return true
+			}
+		}
+		return false
+	}
+	fl := &core.Flow{Fn: eq, Entry: entry}
+	fl.Branch = func(iff *ssa.If, succ int, st int) (int, bool) {
+		cnd, sc := iff.Cond, succ
+		for {
+			u, ok := cnd.(*ssa.UnOp)
+			if !ok || u.Op != token.NOT {
+				break
+			}
+			cnd, sc = u.X, 1-sc
+		}
+		bo, ok := cnd.(*ssa.BinOp)
+		if !ok || (bo.Op != token.EQL && bo.Op != token.NEQ) || !isTypeLoad(bo.X) {
+			return st, true
+		}
+		k, ok := core.ConstInt(bo.Y)
+		if !ok {
+			return st, true
+		}
+		i, known := idx[k]
+		if !known {
+			return st, true
+		}
+		isT := (bo.Op == token.EQL) == (sc == 0)
+		return st, (st == i) == isT
+	}
+	res := fl.Run()
+	type rd struct {
+		name string
+		pos  string
+	}
+	reads := map[int64][]rd{}
+	for _, ac := range core.FieldAccesses([]*ssa.Function{eq}, isValueField) {
+		if ac.Kind != "load" || ac.F == typeF {
+			continue
+		}
+		for _, i := range res.Before[ac.Instr].List() {
+			reads[consts[i]] = append(reads[consts[i]], rd{ac.F.Name, p.InstrPos(ac.Instr)})
+		}
+	}
+	for _, k := range consts {
+		ws, parsed := written[k]
+		if !parsed {
+			continue // a class the parser never assigns (zero value)
+		}
+		bad, at := "", "-"
+		seen := map[string]bool{}
+		for _, x := range reads[k] {
+			if !ws[x.name] && !seen[x.name] {
+				seen[x.name] = true
+				bad += " " + x.name
+				at = x.pos
+			}
+		}
+		var wl []string
+		for n := range ws {
+			wl = append(wl, n)
+		}
+		sort.Strings(wl)
+		r.Check(bad == "", rule, "store.Value.Equal", "class:"+names[k]+":reads-only-members-the-parser-sets", at, fmt.Sprintf("reads only members the parser assigns for this class %v", wl), fmt.Sprintf("for class %s Equal reads the member(s)%s, which the value parser does not assign on every path ending in that class (it assigns %v and resets nothing): a Value that is decoded into more than once compares by what an earlier text left there", names[k], bad, wl))
+	}
+}
+
+func typeFType(p *core.Prog, f core.Field) types.Type {
+	if st, ok := structType(p, "store", "Value"); ok {
+		for i := 0; i < st.NumFields(); i++ {
+			if st.Field(i).Name() == f.Name {
+				return st.Field(i).Type()
+			}
+		}
+	}
+	return types.Typ[types.Invalid]
 }
